@@ -12,11 +12,11 @@ Open Scope list_scope.
 Open Scope Z_scope.
 
 Definition wit_dev_inst := (PDict [("__class__", (PStr "VirtualDevice")); ("name", (PStr "NoDMM")); ("dimensions", (PInt (2))); ("rydberg_level", (PInt (60))); ("min_atom_distance", (PInt (0))); ("max_atom_num", PNone); ("max_radial_distance", PNone); ("interaction_coeff_xy", PNone); ("supports_slm_mask", (PBool false)); ("max_layout_filling", (PFlt (0x1.0000000000000p-1%float))); ("optimal_layout_filling", PNone); ("min_layout_traps", (PInt (1))); ("max_layout_traps", PNone); ("max_sequence_duration", PNone); ("max_runs", PNone); ("requires_layout", (PBool false)); ("reusable_channels", (PBool true)); ("channel_ids", (PList [(PStr "rydberg_global")])); ("channel_objects", (PList [(PDict [("__class__", (PStr "Rydberg")); ("addressing", (PStr "Global")); ("max_abs_detuning", PNone); ("max_amp", PNone); ("min_retarget_interval", PNone); ("fixed_retarget_t", PNone); ("max_targets", PNone); ("clock_period", (PInt (1))); ("min_duration", (PInt (1))); ("max_duration", (PInt (100000000))); ("min_avg_amp", (PInt (0))); ("mod_bandwidth", PNone); ("custom_phase_jump_time", PNone); ("eom_config", PNone); ("propagation_dir", PNone)])])); ("dmm_objects", (PList [])); ("default_noise_model", PNone); ("short_description", (PStr ""))]).
-Definition wit_dev_dec := (PDict [("__class__", (PStr "VirtualDevice")); ("name", (PStr "NoDMM")); ("dimensions", (PInt (2))); ("rydberg_level", (PInt (60))); ("min_atom_distance", (PInt (0))); ("max_atom_num", PNone); ("max_radial_distance", PNone); ("interaction_coeff_xy", PNone); ("supports_slm_mask", (PBool false)); ("max_layout_filling", (PFlt (0x1.0000000000000p-1%float))); ("optimal_layout_filling", PNone); ("min_layout_traps", (PInt (1))); ("max_layout_traps", PNone); ("max_sequence_duration", PNone); ("max_runs", PNone); ("requires_layout", (PBool false)); ("reusable_channels", (PBool true)); ("channel_ids", (PList [(PStr "rydberg_global")])); ("channel_objects", (PList [(PDict [("__class__", (PStr "Rydberg")); ("addressing", (PStr "Global")); ("max_abs_detuning", PNone); ("max_amp", PNone); ("min_retarget_interval", PNone); ("fixed_retarget_t", PNone); ("max_targets", PNone); ("clock_period", (PInt (1))); ("min_duration", (PInt (1))); ("max_duration", (PInt (100000000))); ("min_avg_amp", (PInt (0))); ("mod_bandwidth", PNone); ("custom_phase_jump_time", PNone); ("eom_config", PNone); ("propagation_dir", PNone)])])); ("dmm_objects", (PList [(PDict [("__class__", (PStr "DMM")); ("addressing", (PStr "Global")); ("max_abs_detuning", PNone); ("max_amp", (PInt (0))); ("min_retarget_interval", PNone); ("fixed_retarget_t", PNone); ("max_targets", PNone); ("clock_period", (PInt (1))); ("min_duration", (PInt (1))); ("max_duration", (PInt (100000000))); ("min_avg_amp", (PInt (0))); ("mod_bandwidth", PNone); ("custom_phase_jump_time", PNone); ("eom_config", PNone); ("propagation_dir", PNone); ("bottom_detuning", PNone); ("total_bottom_detuning", PNone)])])); ("default_noise_model", PNone); ("short_description", (PStr ""))]).
+Definition wit_dev_dec := (PDict [("__class__", (PStr "VirtualDevice")); ("name", (PStr "NoDMM")); ("dimensions", (PInt (2))); ("rydberg_level", (PInt (60))); ("min_atom_distance", (PInt (0))); ("max_atom_num", PNone); ("max_radial_distance", PNone); ("interaction_coeff_xy", PNone); ("supports_slm_mask", (PBool false)); ("max_layout_filling", (PFlt (0x1.0000000000000p-1%float))); ("optimal_layout_filling", PNone); ("min_layout_traps", (PInt (1))); ("max_layout_traps", PNone); ("max_sequence_duration", PNone); ("max_runs", PNone); ("requires_layout", (PBool false)); ("reusable_channels", (PBool true)); ("channel_ids", (PList [(PStr "rydberg_global")])); ("channel_objects", (PList [(PDict [("__class__", (PStr "Rydberg")); ("addressing", (PStr "Global")); ("max_abs_detuning", PNone); ("max_amp", PNone); ("min_retarget_interval", PNone); ("fixed_retarget_t", PNone); ("max_targets", PNone); ("clock_period", (PInt (1))); ("min_duration", (PInt (1))); ("max_duration", (PInt (100000000))); ("min_avg_amp", (PInt (0))); ("mod_bandwidth", PNone); ("custom_phase_jump_time", PNone); ("eom_config", PNone); ("propagation_dir", PNone)])])); ("dmm_objects", (PList [])); ("default_noise_model", PNone); ("short_description", (PStr ""))]).
 Definition wit_noise_args := [("runs", (PInt (10))); ("samples_per_run", (PInt (3))); ("dephasing_rate", (PFlt (0x1.999999999999ap-4%float)))].
 Definition wit_temp_args := [("temperature", (PFlt (0x1.ec00000000000p+6%float))); ("runs", (PInt (1))); ("samples_per_run", (PInt (1)))].
 Definition wit_sc_args := [("noise", (PList [(PStr "dephasing")])); ("dephasing_rate", (PFlt (zero))); ("hyperfine_dephasing_rate", (PFlt (zero)))].
-Definition wit_results := (PDict [("__class__", (PStr "Results")); ("atom_order", (PList [(PStr "q0")])); ("total_duration", (PInt (100))); ("tagmap", (PDict [("expectation", (PStr "575b8469-6f91-4db4-b5c3-f31204f02461"))])); ("results", (PDict [("575b8469-6f91-4db4-b5c3-f31204f02461", (PList [(PCx (0x1.8000000000000p+0%float) (0x1.0000000000000p+1%float))]))])); ("times", (PDict [("575b8469-6f91-4db4-b5c3-f31204f02461", (PList [(PFlt (0x1.0000000000000p+0%float))]))]))]).
+Definition wit_results := (PDict [("__class__", (PStr "Results")); ("atom_order", (PList [(PStr "q0")])); ("total_duration", (PInt (100))); ("tagmap", (PDict [("expectation", (PStr "0ac18d4a-9353-456c-a803-105b315c145b"))])); ("results", (PDict [("0ac18d4a-9353-456c-a803-105b315c145b", (PList [(PCx (0x1.8000000000000p+0%float) (0x1.0000000000000p+1%float))]))])); ("times", (PDict [("0ac18d4a-9353-456c-a803-105b315c145b", (PList [(PFlt (0x1.0000000000000p+0%float))]))]))]).
 Definition wit_rich := (PDict [("__class__", (PStr "Device")); ("name", (PStr "Rich")); ("dimensions", (PInt (2))); ("rydberg_level", (PInt (61))); ("min_atom_distance", (PInt (4))); ("max_atom_num", (PInt (20))); ("max_radial_distance", (PInt (60))); ("interaction_coeff_xy", (PFlt (0x1.ce80000000000p+11%float))); ("supports_slm_mask", (PBool true)); ("max_layout_filling", (PFlt (0x1.999999999999ap-2%float))); ("optimal_layout_filling", (PFlt (0x1.999999999999ap-3%float))); ("min_layout_traps", (PInt (1))); ("max_layout_traps", PNone); ("max_sequence_duration", (PInt (6000))); ("max_runs", (PInt (500))); ("requires_layout", (PBool false)); ("reusable_channels", (PBool false)); ("channel_ids", (PList [(PStr "ryd"); (PStr "ram"); (PStr "mw")])); ("channel_objects", (PList [(PDict [("__class__", (PStr "Rydberg")); ("addressing", (PStr "Global")); ("max_abs_detuning", (PFlt (0x1.f6a3d70a3d70ap+6%float))); ("max_amp", (PFlt (0x1.9000000000000p+3%float))); ("min_retarget_interval", PNone); ("fixed_retarget_t", PNone); ("max_targets", PNone); ("clock_period", (PInt (4))); ("min_duration", (PInt (16))); ("max_duration", (PInt (67108864))); ("min_avg_amp", (PInt (0))); ("mod_bandwidth", (PFlt (0x1.0000000000000p+3%float))); ("custom_phase_jump_time", PNone); ("eom_config", (PDict [("__class__", (PStr "RydbergEOM")); ("limiting_beam", (PStr "RED")); ("max_limiting_amp", (PFlt (0x1.7900000000000p+7%float))); ("intermediate_detuning", (PFlt (0x1.616cccccccccdp+11%float))); ("controlled_beams", (PList [(PStr "BLUE"); (PStr "RED")])); ("mod_bandwidth", (PFlt (0x1.4000000000000p+5%float))); ("custom_buffer_time", (PInt (240))); ("multiple_beam_control", (PBool true)); ("blue_shift_coeff", (PFlt (0x1.0000000000000p+1%float))); ("red_shift_coeff", (PFlt (0x1.8000000000000p-1%float)))])); ("propagation_dir", (PList [(PFlt (zero)); (PFlt (0x1.0000000000000p+0%float)); (PFlt (zero))]))]); (PDict [("__class__", (PStr "Raman")); ("addressing", (PStr "Local")); ("max_abs_detuning", (PFlt (0x1.f666666666666p+5%float))); ("max_amp", (PInt (10))); ("min_retarget_interval", (PInt (220))); ("fixed_retarget_t", (PInt (0))); ("max_targets", (PInt (1))); ("clock_period", (PInt (1))); ("min_duration", (PInt (1))); ("max_duration", (PInt (100000000))); ("min_avg_amp", (PInt (0))); ("mod_bandwidth", PNone); ("custom_phase_jump_time", (PInt (0))); ("eom_config", PNone); ("propagation_dir", PNone)]); (PDict [("__class__", (PStr "Microwave")); ("addressing", (PStr "Global")); ("max_abs_detuning", (PFlt (0x1.4000000000000p+4%float))); ("max_amp", (PFlt (0x1.4000000000000p+2%float))); ("min_retarget_interval", PNone); ("fixed_retarget_t", PNone); ("max_targets", PNone); ("clock_period", (PInt (1))); ("min_duration", (PInt (1))); ("max_duration", (PInt (100000000))); ("min_avg_amp", (PFlt (0x1.0000000000000p-1%float))); ("mod_bandwidth", PNone); ("custom_phase_jump_time", PNone); ("eom_config", PNone); ("propagation_dir", PNone)])])); ("dmm_objects", (PList [(PDict [("__class__", (PStr "DMM")); ("addressing", (PStr "Global")); ("max_abs_detuning", PNone); ("max_amp", (PInt (0))); ("min_retarget_interval", PNone); ("fixed_retarget_t", PNone); ("max_targets", PNone); ("clock_period", (PInt (4))); ("min_duration", (PInt (16))); ("max_duration", (PInt (67108864))); ("min_avg_amp", (PInt (0))); ("mod_bandwidth", PNone); ("custom_phase_jump_time", PNone); ("eom_config", PNone); ("propagation_dir", PNone); ("bottom_detuning", (PFlt ((-0x1.f6a3d70a3d70ap+6)%float))); ("total_bottom_detuning", (PFlt ((-0x1.88b0000000000p+13)%float)))])])); ("default_noise_model", (PDict [("__class__", (PStr "NoiseModel")); ("noise_types", (PList [(PStr "SPAM"); (PStr "doppler"); (PStr "eff_noise"); (PStr "relaxation")])); ("runs", (PInt (15))); ("samples_per_run", (PInt (1))); ("state_prep_error", (PFlt (zero))); ("p_false_pos", (PFlt (0x1.47ae147ae147bp-7%float))); ("p_false_neg", (PFlt (zero))); ("temperature", (PFlt (0x1.9000000000000p+5%float))); ("laser_waist", PNone); ("amp_sigma", (PFlt (zero))); ("relaxation_rate", (PFlt (0x1.47ae147ae147bp-7%float))); ("dephasing_rate", (PFlt (zero))); ("hyperfine_dephasing_rate", (PFlt (zero))); ("depolarizing_rate", (PFlt (zero))); ("eff_noise_rates", (PList [(PFlt (0x1.0000000000000p-1%float))])); ("eff_noise_opers", (PList [(PList [(PList [(PInt (0)); (PCx (zero) (0x1.0000000000000p+0%float))]); (PList [(PCx (zero) ((-0x1.0000000000000p+0)%float)); (PFlt (0x1.0000000000000p-1%float))])])])); ("with_leakage", (PBool false))])); ("short_description", (PStr "")); ("pre_calibrated_layouts", (PList [(PDict [("__class__", (PStr "RegisterLayout")); ("coordinates", (PList [(PList [(PFlt (zero)); (PFlt (zero))]); (PList [(PFlt (zero)); (PFlt (0x1.4000000000000p+2%float))]); (PList [(PFlt (0x1.4000000000000p+2%float)); (PFlt (zero))]); (PList [(PFlt (0x1.4000000000000p+2%float)); (PFlt (0x1.4000000000000p+2%float))]); (PList [(PFlt (0x1.4000000000000p+3%float)); (PFlt (zero))])])); ("slug", (PStr "five"))])])); ("accepts_new_layouts", (PBool false))]).
 
 Definition same (a b : option pv) : bool := sv_eqb (sv_of_opt a) (sv_of_opt b).
@@ -26,23 +26,22 @@ Definition roundtrip_dev (d : pv) : option pv :=
 Definition roundtrip_noise (n : pv) : option pv :=
   match enc_noise n with Some j => dec_noise j | None => None end.
 
-(** a VirtualDevice without DMM comes back with the class default [(DMM(),)] *)
-Theorem device_roundtrip_refuted :
-  exists d d',
+(** regression for commit 877338bd: a VirtualDevice without DMM (the input
+    on which the round trip used to return the class default [(DMM(),)])
+    now round-trips exactly, in the model and in the implementation *)
+Theorem device_empty_dmm_roundtrip :
+  exists d,
     class_of d = "VirtualDevice"
     /\ attr "dmm_objects" d = PList []
-    /\ roundtrip_dev d = Some d'
-    /\ same (Some (attr "dmm_objects" d')) (default_of tbl_VirtualDevice "dmm_objects") = true
-    /\ pyeq (attr "dmm_objects" d) (attr "dmm_objects" d') = false.
+    /\ same (default_of tbl_VirtualDevice "dmm_objects") (Some (PList [])) = false
+    /\ same (roundtrip_dev d) (Some d) = true.
 Proof.
-  exists wit_dev_inst. eexists.
+  exists wit_dev_inst.
   split; [reflexivity|]. split; [reflexivity|].
-  split; [vm_compute; reflexivity|].
   split; vm_compute; reflexivity.
 Qed.
 
-(** ... and the model's decoded object is the one the implementation decoded *)
-Example device_refuted_matches_impl :
+Example device_empty_dmm_matches_impl :
   same (roundtrip_dev wit_dev_inst) (Some wit_dev_dec) = true.
 Proof. vm_compute. reflexivity. Qed.
 
